@@ -223,7 +223,7 @@ PROPS = {
     },
     "C08": {
         "propfile": "PropC08.v",
-        "n": {"quick": 60, "thorough": 1500},
+        "n": {"quick": 160, "thorough": 3000},
         "corr": "verdict equality of VerifyRefFull / VerifyRef across persistent-cache configurations (metamorphic) ; cache index lookups vs scans (Cache.v)",
         "rule": "histories as in C01 (principals share no keys), each verified (main full, main latest-only, feature full) with: no cache; "
                 "cache freshly populated (PopulatePersistentCache) - first run; repeated and reordered runs on the advanced cache / "
@@ -263,7 +263,7 @@ PROPS = {
     },
     "C10": {
         "propfile": "PropC10.v",
-        "n": {"quick": 14, "thorough": 600},
+        "n": {"quick": 30, "thorough": 600},
         "corr": "pkg/gitinterface GetFilePathsChangedByCommit / GetAllFilesInTree / GetEntriesInTree / TreeBuilder.WriteTreeFromEntries on real "
                 "repositories (git binary) vs the trees as written, raw `git ls-tree -z` output vs GitFormat.print_lstree_z, GitFormat.parse_lstree_z "
                 "on that raw output vs what gitinterface returned; VerifyRefFull (path and commit enumeration through the real gitinterface) vs "
@@ -286,7 +286,7 @@ PROPS = {
     },
     "C18": {
         "propfile": "PropC18.v",
-        "n": {"quick": 16, "thorough": 800},
+        "n": {"quick": 30, "thorough": 800},
         "corr": "internal/propagation.PropagateChangesFromUpstreamRepository on pairs of real repositories, repeated 1-3 times, vs "
                 "Propagate.repeat_propagate: error/ok, the downstream tree (read with `git ls-tree -r -z`, parsed by the harness), commits made, "
                 "propagation entries (ref, tree of the commit named, upstream location, upstream entry); and, on the implementation's answers, the "
@@ -307,7 +307,7 @@ PROPS = {
     },
     "C15": {
         "propfile": "PropC15.v",
-        "n": {"quick": 10, "thorough": 500},
+        "n": {"quick": 24, "thorough": 500},
         "corr": "experimental/gittuf ReconcileLocalRSLWithRemote and sync on pairs of real repositories (local with remote 'origin') vs "
                 "Reconcile.reconcile / Reconcile.sync: error kind, the local log afterwards (independent walker; annotations as positions), local "
                 "and remote refs, the remote log, the diverged-refs list; and, on the implementation's answers, the clauses of the property",
